@@ -240,6 +240,59 @@ func Scenarios() []Scenario {
 			}
 			return &Built{Parties: st.track(ps), Outputs: shardOut(func(id ID) *ad.Shard { return cp[id].Out })}
 		}},
+		{"ecbbot", func(st *Streams) *Built {
+			ids := []ID{1, 2}
+			ctxs, err := ad.SetupSessions(ids, st.Setup)
+			if err != nil {
+				panic(err)
+			}
+			choices := make([]byte, 2) // xi = 16 instances
+			io.ReadFull(st.Setup(2), choices)
+			snd, rcv, err := ad.NewOTPair(ctxs[1], ctxs[2], 16, 2, choices, st.Proto(1), st.Proto(2))
+			if err != nil {
+				panic(err)
+			}
+			return &Built{Parties: st.track([]proto.Party{snd, rcv}), Outputs: func(completed []ID) map[string]any {
+				out := map[string]any{"kind": "ot", "done": ad.IDsU(completed), "big": toy.Big}
+				if snd.Out != nil && rcv.Out != nil && len(completed) == 2 {
+					bits := []int{}
+					for i := 0; i < 16; i++ {
+						bits = append(bits, int((choices[i/8]>>(i%8))&1))
+					}
+					s0, s1, rv := [][]uint64{}, [][]uint64{}, [][]uint64{}
+					for i := 0; i < 16; i++ {
+						s0 = append(s0, tr.Ints(snd.Out.Messages[i][0]))
+						s1 = append(s1, tr.Ints(snd.Out.Messages[i][1]))
+						rv = append(rv, tr.Ints(rcv.Out.Messages[i]))
+					}
+					out["choices"], out["s0"], out["s1"], out["recv"] = bits, s0, s1, rv
+				}
+				return out
+			}}
+		}},
+		{"rvole", func(st *Streams) *Built {
+			ids := []ID{1, 2}
+			ctxs, err := ad.SetupSessions(ids, st.Setup)
+			if err != nil {
+				panic(err)
+			}
+			L := 2
+			a := make([]ad.S, L)
+			for i := range a {
+				a[i], _ = toy.NewScalarField().Random(st.Setup(1))
+			}
+			al, bo, err := ad.NewVolePair(ctxs[1], ctxs[2], L, a, st.Proto(1), st.Proto(2))
+			if err != nil {
+				panic(err)
+			}
+			return &Built{Parties: st.track([]proto.Party{al, bo}), Outputs: func(completed []ID) map[string]any {
+				out := map[string]any{"kind": "vole", "done": ad.IDsU(completed), "big": toy.Big}
+				if len(completed) == 2 && al.C != nil && bo.D != nil {
+					out["a"], out["b"], out["c"], out["d"] = tr.Ints(a), bo.Bv.Int(), tr.Ints(al.C), tr.Ints(bo.D)
+				}
+				return out
+			}}
+		}},
 		{"lindell22", func(st *Streams) *Built {
 			ids := []ID{1, 2, 3}
 			as, _ := pol3().Build()
